@@ -43,6 +43,8 @@ def run_one(path, kind, build):
                 good = p.returncode == 2 and not viol
             elif kind == "mutant":
                 good = p.returncode == 1 and viol
+            elif broken_ok:
+                good = p.returncode in (0, 2) and not viol     # a correct edit may be answered "cannot decide", never with a violation
             else:
                 good = p.returncode == 0 and not viol
             first = next((l for l in p.stdout.split("\n") if l.startswith("  ") and "[" in l), "")
